@@ -160,6 +160,9 @@ Fixpoint mid (lfuel : nat) (fuel : nat) (s : dstate) (g : position) (bphi bdelta
     let '(ph, de) := terminal_bounds g GNone in
     (bump_d s (fun t => {| ds_rep := ds_rep t + 1; ds_term := ds_term t; ds_solved := ds_solved t; ds_hits := ds_hits t; ds_miss := ds_miss t |}),
      set_bounds cur ph de, 0) else
+  (* bounds that rest on a repetition cut below this node hold on the current line of play only: they are returned to the
+     caller but not stored (rep0: the repetition counter when the node is entered) *)
+  let rep0 := ds_rep (dst s) in
   let depth := length (dstack s) in
   let killer := match nth_error (killers s) depth with Some k => if (mT k =? 0) then None else Some k | None => None end in
   let '(s, children) := gen_children g killer (all_moves g) s [] in
@@ -168,7 +171,7 @@ Fixpoint mid (lfuel : nat) (fuel : nat) (s : dstate) (g : position) (bphi bdelta
              let ks := killers s ++ repeat move0 (S depth - length (killers s)) in
              {| dtable := dtable s; dstack := dstack s; killers := set_nth ks depth (d_pv cur); dst := dst s; dfuel_out := dfuel_out s |}
            else s in
-  (store s cur, cur, work)
+  ((if ds_rep (dst s) =? rep0 then store s cur else s), cur, work)
   end.
 
 (* the tail of Prove(): phi/delta at the root are relative to the side to move, the reported result to the attacker.
